@@ -184,6 +184,8 @@ def run_check(family, pid: str, tier: str, seed: int) -> int:
         else:
             lines.append(f'KNOWN-FINDING: property={pid} {fid} {f["what"]}')
     new_viol.sort(key=lambda v: len(json.dumps(v.get('scenario'), default=str)))
+    if os.environ.get('VERIF_SHOW_ALL'):        # debugging aid: every new violation, not only the three that get a replay file
+        for v in new_viol: print('  what:', str(v.get('what'))[:400].replace('\n', ' '), '|', str((v.get('scenario') or {}).get('origin', ''))[:60], file=sys.stderr)
     for i, v in enumerate(new_viol[:3]):
         h = hashlib.sha1(json.dumps(v.get('scenario'), sort_keys=True, default=str).encode()).hexdigest()[:10]
         v = dict(v, property=pid, seed=ctx.seed, tier=ctx.tier)
